@@ -18,6 +18,57 @@ FAMILIES = [
     ("bmat", "PUBOMatrix", "QUBOMatrix", [0, 2, 3]),
     ("smat", "PUSOMatrix", "QUSOMatrix", [0, 2, 3]),
 ]
+# both objects of the SAME class: update / += / copy between them take the class-specific paths (constraints, counters, caches)
+SAME_KIND = [
+    ("pcbo2", "PCBO", "PCBO", ["a", "b", "c"]),
+    ("pcso2", "PCSO", "PCSO", ["a", "b", "c"]),
+    ("bmat2", "PUBOMatrix", "PUBOMatrix", [0, 2, 3]),
+    ("smat2", "QUSOMatrix", "QUSOMatrix", [0, 2, 3]),
+]
+
+
+def directed_histories(rng, n, labels, quad=False, constrained=True, length=7, kinds=("PCBO", "PCBO")):
+    """op sequences chosen with equal weight per OPERATION (TLC's simulation picks uniformly among successor STATES, where the many
+    keys of item assignment crowd out the rare operations): conversions between edits, updates between the two objects,
+    constraints before and after.  Validated step by step by spec/ModelObjTrace.tla like every other history."""
+    fams = ["setitem", "setitem", "setitem", "augadd", "toenum", "toenum", "update", "iadd", "copy", "refresh", "setmap", "new", "clear"]
+    if constrained:
+        fams += ["addcons", "addcons", "imul"]
+    out = []
+    for _ in range(n):
+        ops = []
+        kd = {1: kinds[0], 2: kinds[1]}            # copies change the class of a slot
+        for _ in range(length):
+            f = rng.choice(fams)
+            s_ = rng.choice([1, 2])
+            o_ = 3 - s_
+            if f == "addcons" and kd[s_] not in ("PCBO", "PCSO"):
+                f = "setitem"
+            key = [rng.choice(labels) for _ in range(rng.choice([1, 1, 2, 2, 3] if not quad else [1, 2, 2]))]
+            if f in ("setitem", "augadd"):
+                ops.append([f, s_, key, rng.choice([1, 1, -1, 0])])
+            elif f == "toenum":
+                ops.append([f, s_, rng.random() < 0.7])
+            elif f in ("update", "iadd", "imul"):
+                if rng.random() < 0.7:
+                    ops.append([f, s_, o_, []])
+                else:
+                    ops.append([f, s_, 0, [[key, 1]]])
+            elif f == "copy":
+                ops.append([f, s_, o_])
+                kd[o_] = kd[s_]
+            elif f in ("refresh", "clear"):
+                ops.append([f, s_])
+            elif f == "setmap":
+                ops.append([f, s_, rng.choice(["rev", "rot"])])
+            elif f == "new":
+                ops.append([f, s_, [[key, 1]]])
+            else:
+                ops.append(["addcons", s_, rng.choice(labels), rng.randint(0, 5)])
+        out.append(ops)
+    return out
+
+
 MC_INVS = ["UpperBounds", "MappingBijection", "StoredCanonical", "AncCovers"]
 MC_PROPS = ["RefreshExact", "AncNeverReused"]
 TRACE_INVS = ["TermsMatch", "KindMatch", "ImplNoRaise", "ImplUpperBounds", "ImplMappingBijection", "ImplStoredCanonical",
@@ -112,7 +163,7 @@ def validate(out, wd, traces, fam, label, trace_module="ModelObjTrace", invs=TRA
 
 
 def fam_by_name(n):
-    return [f for f in FAMILIES if f[0] == n][0]
+    return [f for f in FAMILIES + SAME_KIND if f[0] == n][0]
 
 
 def run(tier, out, replay=None):
@@ -120,9 +171,18 @@ def run(tier, out, replay=None):
     rng = common.rng_for(out.seed, "c14")
     thorough = tier == "thorough"
     try:
+        if replay and "pair" in (json.load(open(replay)).get("record") or {}):
+            from . import c05
+            return c05.replay_pair(out, json.load(open(replay))["record"]["pair"])
         if replay:
             rec = json.load(open(replay))["record"]
-            fam = fam_by_name(rec["family"].rstrip("4"))
+            directed = {"pcbo2d": ("PCBO", "PCBO", ["a", "b", "c", "d"]), "pcso2d": ("PCSO", "PCSO", ["a", "b", "c", "d"]),
+                        "pubod": ("PUBO", "PCBO", ["a", "b", "c", "d"]), "bmat2d": ("PUBOMatrix", "PUBOMatrix", [0, 2, 3, 5]),
+                        "qmat2d": ("QUBOMatrix", "QUBOMatrix", [0, 2, 3, 5])}
+            if rec["family"] in directed:
+                fam = (rec["family"],) + directed[rec["family"]]
+            else:
+                fam = fam_by_name(rec["family"].rstrip("4"))
             if rec["family"].endswith("4"):
                 fam = (fam[0] + "4", fam[1], fam[2], ["a", "b", "c", "d"])
             codec = modelobj.LabelCodec(fam[3], labels_from_desc(rec.get("py_labels")))
@@ -158,7 +218,7 @@ def run(tier, out, replay=None):
                 out.notes.append("VACUITY WARNING: negative configuration %s not rejected" % nm)
         out.set("negative_configs_rejected", rejected)
         # 2. every transition of the 2-step graph of the constrained families, replayed on the real classes
-        for famname in ("pcbo", "pcso"):
+        for famname in ("pcbo", "pcso", "pcbo2", "pcso2"):
             fam = fam_by_name(famname)
             name, k1, k2, labels = fam
             # no VIEW here: the history variable `op` of the destination node identifies the operation of an edge
@@ -168,7 +228,7 @@ def run(tier, out, replay=None):
             adj, init, nlabels = graph.parse_dot(dump + ".dot", want_labels=True)
             os.remove(dump + ".dot")
             adj, nodeops = graph.relabel_by_dst_op(adj, nlabels)
-            walks, covered, total = graph.cover_walks(adj, init, rng, 400000 if thorough else 12000, max_len=40)
+            walks, covered, total = graph.cover_walks(adj, init, rng, 400000 if thorough else 8000, max_len=40)
             out.add("graph_edges_total", total)
             out.add("graph_edges_replayed", covered)
             ops_list = [[eval(l) for l in w] for w in walks]
@@ -179,8 +239,8 @@ def run(tier, out, replay=None):
                 t["py_labels"] = desc
             validate(out, wd, traces, fam, "walk")
         # 3. long random histories from every family (simulation mode of TLC)
-        nsim = 1500 if thorough else 150
-        for fam in FAMILIES:
+        nsim = 1500 if thorough else 110
+        for fam in FAMILIES + SAME_KIND:
             name, k1, k2, labels = fam
             write_cfg(cfg, "Spec", k1, k2, labels, 99, invs=["StoredCanonical"], view=False, keylen=3, maxterms=6, constraint=False)
             simdir = os.path.join(wd, "sim_" + name)
@@ -219,6 +279,26 @@ def run(tier, out, replay=None):
             fam4 = (name + "4", k1, k2, labels4)
             if traces:
                 validate(out, wd, traces, fam4, "stale")
+        # 4b. operand pairs: the in-place forms between EVERY ordered pair of classes over the TLC-emitted universe
+        #     (spec/CheckBin.tla, clause Bookkeeping: the fast paths a pair of classes may take)
+        from . import c05
+        c05.pairs_tier(out, wd, common.rng_for(out.seed, "c14p"), thorough)
+        # 5. directed histories (harness-chosen operations, one weight per operation), validated like the generated ones
+        for name, k1, k2, labels4, quad, cons in (("pcbo2d", "PCBO", "PCBO", ["a", "b", "c", "d"], False, True),
+                                                  ("pcso2d", "PCSO", "PCSO", ["a", "b", "c", "d"], False, True),
+                                                  ("pubod", "PUBO", "PCBO", ["a", "b", "c", "d"], False, True),
+                                                  ("bmat2d", "PUBOMatrix", "PUBOMatrix", [0, 2, 3, 5], False, False),
+                                                  ("qmat2d", "QUBOMatrix", "QUBOMatrix", [0, 2, 3, 5], True, False)):
+            ops_list = directed_histories(rng, 2500 if thorough else 260, labels4, quad=quad, constrained=cons, kinds=(k1, k2))
+            if not cons:
+                ops_list = [[o for o in ops if o[0] not in ("toenum", "setmap")] for ops in ops_list]
+            out.add("directed_histories", len(ops_list))
+            pl, desc = py_labels(rng, labels4)
+            codec = modelobj.LabelCodec(labels4, pl)
+            traces = modelobj.replay(ops_list, [k1, k2], codec)
+            for t in traces:
+                t["py_labels"] = desc
+            validate(out, wd, traces, (name, k1, k2, labels4), "directed")
         out.assumptions += [
             "cached variables/degree/mapping numbering are free components: judged by the C14 contract on the implementation's "
             "own state, not by equality with the spec's prediction (differences are counted as drift)",
